@@ -342,19 +342,35 @@ impl Broker {
     }
 
     fn ack_outstanding(&mut self, tr: &mut Transport, i: usize, reason: u8, form: AckForm) {
-        let o = self.outstanding.remove(i);
+        let o = self.outstanding[i];
         // reason codes must be legal for the packet type; map a generic "failure" byte
         let mut reason = legal_reason(o.kind, reason);
+        if o.kind == OutKind::Pub2 {
+            if let Some(prev) = self.q2_answered.iter().find(|x| x.0 == o.pid) {
+                reason = prev.1;
+            }
+        }
+        // the optional reason string / user properties are dropped when the packet would exceed
+        // the client's Maximum Packet Size (MQTT 5 section 3.4.2.2.2 and siblings)
+        let mut p = Self::ack_packet_for(o, reason, form);
+        if rc::encode(&p).len() as u64 > self.client_max_packet as u64 {
+            p = Self::ack_packet_for(o, reason, AckForm::Reason);
+        }
+        if rc::encode(&p).len() as u64 > self.client_max_packet as u64 {
+            self.skipped += 1;
+            return; // cannot be acknowledged at all within the client's limit
+        }
+        self.outstanding.remove(i);
         match o.kind {
-            OutKind::Pub2 => match self.q2_answered.iter().find(|x| x.0 == o.pid) {
-                Some(prev) => reason = prev.1,
-                None => self.q2_answered.push((o.pid, reason)),
-            },
+            OutKind::Pub2 => {
+                if !self.q2_answered.iter().any(|x| x.0 == o.pid) {
+                    self.q2_answered.push((o.pid, reason));
+                }
+            }
             OutKind::Rel => self.q2_answered.retain(|x| x.0 != o.pid),
             _ => {}
         }
         self.acked.push((o, reason));
-        let p = Self::ack_packet_for(o, reason, form);
         self.send(tr, p);
     }
 
@@ -376,9 +392,14 @@ impl Broker {
                 if self.outstanding.is_empty() {
                     return false;
                 }
-                while !self.outstanding.is_empty() {
-                    let i = if *reverse { self.outstanding.len() - 1 } else { 0 };
+                let mut keep = 0usize;
+                while self.outstanding.len() > keep {
+                    let before = self.outstanding.len();
+                    let i = if *reverse { self.outstanding.len() - 1 - keep } else { keep };
                     self.ack_outstanding(tr, i, 0, AckForm::Short);
+                    if self.outstanding.len() == before {
+                        keep += 1; // cannot be acknowledged within the client's packet size limit
+                    }
                 }
                 true
             }
@@ -666,6 +687,7 @@ pub struct World {
     /// were accepted is excluded by construction unless a check asks for it.
     pub cancel_disconnect_midway: bool,
     pub excluded_disconnect_cancels: u32,
+    pub tx_len: usize,
     guard_cancel: bool,
 }
 
@@ -682,6 +704,7 @@ impl World {
             max_polls: 200_000,
             cancel_disconnect_midway: false,
             excluded_disconnect_cancels: 0,
+            tx_len: 0,
             guard_cancel: false,
         }
     }
@@ -882,6 +905,7 @@ pub fn run_case_with(case: &Case, tweak: impl FnOnce(&mut World)) -> Trace {
     clock::reset();
     let mut w = World::new(case.broker);
     w.jitter = case.cfg.jitter_us;
+    w.tx_len = case.cfg.tx;
     w.broker.ping_delays = case.cfg.ping_delays_us.clone();
     tweak(&mut w);
     let r = std::panic::catch_unwind(std::panic::AssertUnwindSafe(|| interpret(case, &mut w)));
@@ -1119,6 +1143,11 @@ fn do_step(w: &mut World, tr: &Tr, conn: &mut Connection<'_, '_, SimIo>, at: (us
             t.faults.push(Fault { at_call, eof: *eof });
         }
         Step::Eof => tr.borrow_mut().eof = true,
+        Step::PublishFill { qos, slack, seed } => {
+            let len = w.tx_len.saturating_sub(8 + *slack as usize) as u32;
+            let spec = PubSpec::simple(*qos, 1, len, *seed);
+            do_step(w, tr, conn, at, &Step::Publish(spec));
+        }
         Step::SetBroker(mode) => {
             w.broker.pump(&mut tr.borrow_mut());
             w.broker.mode = *mode;
